@@ -497,3 +497,54 @@ func b64(b []byte) string { return base64.RawStdEncoding.EncodeToString(b) }
 
 // the same CID in multibase base32upper ("B...") instead of base32 ("b...")
 func upperMultibase(s string) string { return strings.ToUpper(s) }
+
+// ---- the option matrix of ipnisync.NewSync ----
+
+// genOptions runs the foreign-signed / forged head scenarios through Syncer.GetHead for
+// every non-default client option set: whatever the options, a head whose signer is not the
+// publisher asked for is never accepted (and an honest one always is).
+func genOptions(c *vlib.Ctx) {
+	headCid := chain[len(chain)-1]
+	defer func() { curOpt = "" }()
+	for oi, opt := range optOrder[1:] {
+		if (oi == 2 || oi == 4) && !c.Thorough() {
+			continue // quick: the auth option alone, retry alone, and everything together
+		}
+		curOpt = opt
+		for _, typ := range keypool.KeyTypes {
+			ids := pool.OfType(typ)
+			a, b := ids[0], ids[1]
+			o := pool.Ids[(a.Index+3)%len(pool.Ids)]
+			for ti, topic := range []string{mainnetTopic, ""} {
+				for _, bs := range scenariosFor(c, a, b, o, headCid, topic, ti == 0) {
+					sc := scenario{name: bs.name, keyType: typ, status: 200, body: encode(bs.sh), signer: a, expect: bs.expect, wantCid: headCid,
+						sig: bs.name + ":" + typ}
+					c.Count("option-scenario:" + bs.name)
+					doGetHead(c, sc, a.ID)
+					doGetHead(c, sc, b.ID)
+					if ti == 0 && (oi != 1 || c.Thorough()) {
+						doGetHead(c, sc, o.ID)
+						doGetHead(c, sc, "")
+					}
+				}
+			}
+			// not a usable response
+			base := encode(honest(c, a, headCid, mainnetTopic))
+			for _, m := range []struct {
+				name   string
+				status int
+				body   []byte
+			}{{"Status:204", 204, base}, {"Status:404", 404, base}, {"Status:500", 500, base}, {"Body:empty", 200, nil}, {"Body:{}", 200, []byte("{}")}} {
+				doGetHead(c, scenario{name: m.name, keyType: typ, status: m.status, body: m.body, signer: a, expect: "reject", sig: m.name + ":" + typ}, a.ID)
+			}
+			// two histories on one Syncer of this client
+			hNew := honest(c, a, headCid, mainnetTopic)
+			mk := func(name string, sh *head.SignedHead) scenario {
+				return scenario{name: name, keyType: typ, status: 200, body: encode(sh), signer: a}
+			}
+			doGetHeadHist(c, typ, a.ID, []scenario{mk("Honest(new)", hNew), mk("ResignBy:b", honest(c, b, headCid, mainnetTopic)),
+				mk("SetField:cid:=mid(key+sig of Honest(new))", with(hNew, func(s *head.SignedHead) { s.Head = link(chain[2]) })), mk("Honest(new)", hNew)})
+			doGetHeadHist(c, typ, b.ID, []scenario{mk("Honest(new)", hNew), mk("ResignBy:b", honest(c, b, headCid, mainnetTopic))})
+		}
+	}
+}
